@@ -62,8 +62,10 @@ func c20Gen(class string, seed uint64, tier string) *vfScenario {
 		f.A, f.B = 2, int64([]int{101, 102, 103, 104, 105, 201, 2, 0, 255, 1, 3}[rng.IntN(11)])
 	case x < 90:
 		f.A, f.B = 3, int64(rng.IntN(60))
-	case x < 94:
+	case x < 93:
 		f.A = 4
+	case x < 96:
+		f.A, f.B = 6, int64([]int{0, 0, 1, 4, 99}[rng.IntN(5)])
 	default:
 		f.A, f.B = 5, int64(1+rng.IntN(20))
 	}
@@ -135,6 +137,8 @@ func c20Enumerate(tier string, base uint64, emit func(*vfScenario)) {
 				}
 				add(vfFault{A: 4})
 				add(vfFault{A: 5, B: 7})
+				add(vfFault{A: 6, B: 0})
+				add(vfFault{A: 6, B: 1})
 			}
 		}
 	}
@@ -183,6 +187,11 @@ func c20Mutate(body []byte, f vfFault, seed uint64) []byte {
 	case 5:
 		for i := 0; i < int(f.B); i++ {
 			b = append(b, byte(0xa5+i))
+		}
+	case 6:
+		// a well-formed STATUS with code f.B (0 = SSH_FX_OK) in place of whatever the request expects
+		if len(b) >= 5 {
+			b = ssStatus(binary.BigEndian.Uint32(b[1:]), uint32(f.B), "substituted").encode()[4:]
 		}
 	}
 	return b
@@ -303,6 +312,24 @@ func c20Exec(r *vfRun) {
 	if grown := int64(allocAfter - allocBefore); grown > 8<<20+int64(256*recvd) {
 		r.fail("C20/allocation-out-of-proportion", target.K, "the call allocated %d bytes while %d reply bytes were received (mutation %+v)", grown, recvd, fault)
 		return
+	}
+	// whatever the call returned must be usable without crashing
+	if tr := results[4]; tr != nil && tr.Err == nil {
+		vfGuard(sim, "C20", "using the value returned by "+target.K, func() {
+			for _, fi := range tr.Infos {
+				_ = fi.Name() + fi.Mode().String()
+				_ = fi.Size() + fi.ModTime().Unix()
+				_ = fi.IsDir()
+			}
+			if target.K == "open" {
+				if f := env.file(5); f == nil {
+					panic("Open returned a nil *File and a nil error")
+				}
+			}
+		})
+		if sim.failed() {
+			return
+		}
 	}
 	probe := results[len(prog)-1]
 	usable := false
